@@ -114,9 +114,6 @@ func run(c *lib.Ctx) error {
 		hist[h] = randomHistory(c, rng, st, steps)
 		c.Inc("v_histories_over_db_store", 1)
 	})
-	if hung.Load() {
-		return lib.Infra("a cursor move of the real code did not return within 20s in a random history")
-	}
 	if firstErr != nil {
 		return firstErr
 	}
@@ -131,9 +128,23 @@ func run(c *lib.Ctx) error {
 			}
 		}
 	}
+	// at most 4 TLC workers / processes at a time (coordinator's rule for the shared machine)
+	sem := make(chan struct{}, 4)
+	acquire := func(n int) {
+		for i := 0; i < n; i++ {
+			sem <- struct{}{}
+		}
+	}
+	release := func(n int) {
+		for i := 0; i < n; i++ {
+			<-sem
+		}
+	}
 	wg.Add(1)
 	go func() {
 		defer wg.Done()
+		acquire(2)
+		defer release(2)
 		if err := judge(c, dir, "TraceHistWalk(V)", append(probeHist, hist...)); err != nil {
 			fail(err)
 			return
@@ -148,18 +159,6 @@ func run(c *lib.Ctx) error {
 		gen = []bounds{{1, 1, 1, 1, "T3", "P3"}, {2, 1, 0, 1, "T3", "P3"}, {1, 2, 1, 1, "T2", "P2"}, {2, 1, 1, 1, "T2", "P2"}}
 		mOnly = []bounds{{2, 2, 1, 1, "T3", "P3"}}
 	}
-	// at most 8 TLC workers at a time
-	sem := make(chan struct{}, 8)
-	acquire := func(n int) {
-		for i := 0; i < n; i++ {
-			sem <- struct{}{}
-		}
-	}
-	release := func(n int) {
-		for i := 0; i < n; i++ {
-			<-sem
-		}
-	}
 	var bs []string
 	for _, b := range append(append([]bounds{}, gen...), mOnly...) {
 		bs = append(bs, b.String())
@@ -169,9 +168,9 @@ func run(c *lib.Ctx) error {
 		wg.Add(1)
 		go func(b bounds) {
 			defer wg.Done()
-			acquire(4)
-			defer release(4)
-			r, err := c.TLC("MCHistWalk(M "+b.String()+")", lib.TLCRun{Dir: dir, Module: "MCHistWalk", Workers: 4, Timeout: 13 * time.Minute, HeapGB: 8,
+			acquire(2)
+			defer release(2)
+			r, err := c.TLC("MCHistWalk(M "+b.String()+")", lib.TLCRun{Dir: dir, Module: "MCHistWalk", Workers: 2, Timeout: 13 * time.Minute, HeapGB: 8,
 				Files: map[string][]byte{"MCHistWalk.cfg": cfg(b, false)}})
 			if err != nil {
 				fail(err)
@@ -227,11 +226,10 @@ func run(c *lib.Ctx) error {
 						fail(lib.Infra("reset store: %v", err))
 						return
 					}
-					replayBehaviour(c, rs.Store, beh)
-					if hung.Load() {
-						fail(lib.Infra("a cursor move of the real code did not return within 20s while replaying %s", lines[i]))
-						return
+					if hung.Load() && usesDedup(beh) {
+						continue // a watchdog fired before: do not pile up stuck moves; the run ends with exit 2 or 1
 					}
+					replayBehaviour(c, rs.Store, beh)
 					n++
 					if i < 2 && gi == 0 {
 						c.Sample(beh)
@@ -248,6 +246,9 @@ func run(c *lib.Ctx) error {
 	if firstErr != nil {
 		return firstErr
 	}
+	if hung.Load() {
+		return lib.Infra("a cursor move of the real code did not return within 20s (watchdog; remaining de-duplicating walks were skipped)")
+	}
 	c.AddTraces(nb)
 	c.Set("exhaustive", true)
 	c.Set("g_behaviours", nb)
@@ -256,7 +257,7 @@ func run(c *lib.Ctx) error {
 }
 
 func judge(c *lib.Ctx, dir, name string, hist [][]Event) error {
-	bad, err := lib.JudgeGroups(c, name, dir, "TraceHistWalk", hist, 6, 10*time.Minute)
+	bad, err := lib.JudgeGroups(c, name, dir, "TraceHistWalk", hist, 2, 14*time.Minute)
 	if err != nil {
 		return err
 	}
@@ -280,6 +281,15 @@ func judge(c *lib.Ctx, dir, name string, hist [][]Event) error {
 		c.Reject(keyOf(ev.A, curDedup(flat[starts[hi]:b.Index+1])), fmt.Sprintf("recorded %s: Get=%+v n=%d; specification prescribes %v", ev.A, ev.Get, ev.N, b.Info), flat[starts[hi]:b.Index+1])
 	}
 	return nil
+}
+
+func usesDedup(beh []Step) bool {
+	for _, s := range beh {
+		if s.A == "NewCursor" && s.D {
+			return true
+		}
+	}
+	return false
 }
 
 // curDedup tells whether the cursor live at the end of the event list de-duplicates.
